@@ -36,6 +36,13 @@ SYMBOLS = ("H He Li Be B C N O F Ne Na Mg Al Si P S Cl Ar K Ca Sc Ti V Cr Mn Fe 
            "Ts Og").split()
 
 
+KW_FALSY = dict(KW, title="", charge=0)
+
+
+class CallbackBoom(Exception):
+    """An application-defined exception raised by a user's atom-line callback."""
+
+
 def build_object(sc, rng, natom):
     from iodata import IOData
     from iodata.orbitals import MolecularOrbitals
@@ -48,6 +55,27 @@ def build_object(sc, rng, natom):
     if sc["rt"]:
         kw["run_type"] = sc["rt"][0]
     how = sc.get("derive", "assigned")
+    if how == "mo":
+        # charge and spin polarisation both follow from the orbitals (and the nuclear charges): nothing is assigned
+        q, sp = sc["charge"][0] // 4, abs(sc["spinpol"][0]) // 4
+        rest = int(atnums[1:].sum())
+        ok = [z for z in range(1, 119) if rest + z - q - sp >= 0 and (rest + z - q - sp) % 2 == 0]
+        atnums[0] = min(ok, key=lambda z: abs(z - int(atnums[0])))
+        nelec = int(atnums.sum()) - q
+        na, nb = (nelec + sp) // 2, (nelec - sp) // 2
+        if sc["spinpol"][0] < 0:
+            na, nb = nb, na
+        norb = max(na, nb) + 2
+        kw["atnums"] = atnums
+        if rng.random() < 0.5:
+            occs = np.array([1.0] * na + [0.0] * (norb - na) + [1.0] * nb + [0.0] * (norb - nb))
+            kw["mo"] = MolecularOrbitals("unrestricted", norb, norb, occs)
+        else:
+            hi, lo = max(na, nb), min(na, nb)
+            occs = np.array([2.0] * lo + [1.0] * (hi - lo) + [0.0] * (norb - hi))
+            amb = np.array([0.0] * lo + [1.0 if na >= nb else -1.0] * (hi - lo) + [0.0] * (norb - hi))
+            kw["mo"] = MolecularOrbitals("restricted", norb, norb, occs, None, None, None, amb)
+        return IOData(**kw), atnums, atcoords
     if sc["charge"]:
         q = sc["charge"][0] / 4
         if how == "derived":
@@ -68,6 +96,8 @@ def template_for(sc, prog, fields):
     if sc["template"] == "default":
         return None
     lines = [f"F:{f}=<{{{f}}}>" for f in fields]
+    if sc["extra"] != "none":
+        lines.append("F:myopt=<{myopt}>")
     if sc["template"] == "badfield":
         lines.append("X:{no_such_field}")
     lines += ["GEOM", "{geometry}", "ENDGEOM"]
@@ -120,17 +150,29 @@ def run_scenario(task):
     fields = list(FIELDS) if sc["template"] == "default" else [f for f in FIELDS if rng.random() < 0.7] or ["title"]
     obj, atnums, atcoords = build_object(sc, rng, natom)
     tmp = tempfile.mkdtemp(prefix="c19_")
-    ev = {"op": "Render", "sc": {k: sc[k] for k in ("prog", "known", "attrs", "rt", "charge", "spinpol", "kwargs", "template")},
-          "fields": fields, "text": {}, "geom": {"nlines": 0, "natom": natom, "symbols_ok": True, "coords_ok": True}, "natom": natom,
+    ev = {"op": "Render", "sc": {k: sc[k] for k in ("prog", "known", "attrs", "rt", "charge", "spinpol", "kwargs", "template", "falsy", "cb",
+                                                    "extra")},
+          "fields": fields, "text": {}, "extra_text": "<none>", "geom": {"nlines": 0, "natom": natom, "symbols_ok": True, "coords_ok": True}, "natom": natom,
           "atom_line": bool(custom_atom_line)}
     try:
         path = os.path.join(tmp, "job.inp")
-        kwargs = {f: KW[f] for f in sc["kwargs"]}
+        kwargs = {f: (KW_FALSY if sc["falsy"] else KW)[f] for f in sc["kwargs"]}
+        if sc["extra"] in ("given", "empty"):
+            kwargs["myopt"] = "KWextra" if sc["extra"] == "given" else ""
         tpl = template_for(sc, prog, fields)
         cb = None
-        if custom_atom_line:
+        custom_atom_line = sc["cb"] != "none"
+        if sc["cb"] == "custom":
             def cb(data, i):
                 return f"ATOM {i} Z={int(data.atnums[i])} x={data.atcoords[i][0] / ANGSTROM:.6f}"
+        elif sc["cb"] == "raises":
+            boom = [ZeroDivisionError, RuntimeError, KeyError, OSError, CallbackBoom, StopIteration][seed % 6]
+            at = seed % natom
+
+            def cb(data, i):
+                if i == at:
+                    raise boom("callback failed")
+                return f"ATOM {i}"
         try:
             with warnings.catch_warnings():
                 warnings.simplefilter("ignore")
@@ -149,6 +191,7 @@ def run_scenario(task):
             except Exception:  # noqa: BLE001
                 texts, geom = {f: "<unparsable>" for f in fields}, []
             ev["text"] = {f: str(texts.get(f, "<missing>")) for f in fields}
+            ev["extra_text"] = str(texts.get("myopt", "<missing>")) if sc["extra"] != "none" else "<none>"
             ev["geom"]["nlines"] = len(geom)
             sym_ok, xyz_ok = True, True
             for i, ln in enumerate(geom[:natom]):
@@ -186,15 +229,26 @@ def scenarios(run, rng):
                 for kws in kwsets:
                     ch, sp = rng.choice(charges), rng.choice(spins)
                     tpl = rng.choice(["default", "default", "custom", "custom", "badfield"])
+                    extra = rng.choice(["none", "none", "given", "empty", "missing"]) if tpl == "custom" else "none"
                     out.append({"prog": prog, "known": True, "attrs": attrs, "rt": rt, "charge": ch, "spinpol": sp, "kwargs": kws,
-                                "template": tpl, "derive": rng.choice(["assigned", "derived"])})
+                                "template": tpl, "derive": rng.choice(["assigned", "derived"]), "falsy": rng.random() < 0.4,
+                                "cb": rng.choice(["none", "none", "none", "custom", "raises"]), "extra": extra})
         for ch in charges:
             for sp in spins:
                 for tpl in ("default", "custom"):
                     for der in ("assigned", "derived"):
                         out.append({"prog": prog, "known": True, "attrs": [], "rt": [], "charge": ch, "spinpol": sp, "kwargs": [],
-                                    "template": tpl, "derive": der})
-        out.append({"prog": prog, "known": False, "attrs": [], "rt": [], "charge": [], "spinpol": [], "kwargs": [], "template": "default"})
+                                    "template": tpl, "derive": der, "falsy": False, "cb": "none", "extra": "none"})
+        # charge and multiplicity that follow from the orbitals (nothing assigned), with and without overriding keyword arguments
+        for q in (-8, -4, 0, 4, 12):
+            for sp in (0, 4, -4, 8, 12):
+                for kws in ([], ["charge"], ["spinmult"], ["charge", "spinmult"]):
+                    for falsy in (False, True):
+                        out.append({"prog": prog, "known": True, "attrs": [], "rt": [], "charge": [q], "spinpol": [sp], "kwargs": kws,
+                                    "template": rng.choice(["default", "custom"]), "derive": "mo", "falsy": falsy, "cb": "none",
+                                    "extra": "none"})
+        out.append({"prog": prog, "known": False, "attrs": [], "rt": [], "charge": [], "spinpol": [], "kwargs": [], "template": "default",
+                    "falsy": False, "cb": "none", "extra": "none"})
     return out
 
 
@@ -205,12 +259,11 @@ def check(run: Run):
         "charge (absent / assigned / derived from core charges and electron count, quarter values away from ties) x spin "
         "polarisation x subset of keyword arguments x template (default, custom with a random field subset, broken) x custom "
         "atom-line callback, on molecules of 1..200 atoms over all 118 elements with tagged coordinates; distinct by content")
-    st = run_tlc(run, "Inputs", "MC_Inputs.cfg", workers=16, timeout=900, tag="MC_Inputs")
+    st = run_tlc(run, "Inputs", "MC_Inputs_thorough.cfg" if run.thorough() else "MC_Inputs.cfg", workers=16, timeout=1800, tag="MC_Inputs")
     run.add_model(st)
     scs = scenarios(run, rng)
     sizes = [1, 2, 3, 5, 10, 50, 118, 200]
-    tasks = [(sc, rng.randint(0, 10**9), rng.choice(sizes if i % 7 == 0 else sizes[:5]), i % 5 == 0 and sc["template"] != "badfield")
-             for i, sc in enumerate(scs)]
+    tasks = [(sc, rng.randint(0, 10**9), rng.choice(sizes if i % 7 == 0 else sizes[:5]), sc["cb"] != "none") for i, sc in enumerate(scs)]
     events = pmap(run_scenario, tasks)
     reached = validate_traces(run, "Trace_Inputs", [[e] for e in events], chunk=3000)
     for e, r in zip(events, reached):
